@@ -57,7 +57,8 @@ impl Clock for RecClock {
         Ok(())
     }
 }
-type Ctl = KalmanController<NoAllocKalmanStorage<RecClock, 16>, RecClock>;
+type CtlN<const N: usize> = KalmanController<NoAllocKalmanStorage<RecClock, N>, RecClock>;
+type Ctl = CtlN<4>; // one clock: 2 rows
 
 // ------------------------------------------------------------------ queries
 /// `in_defect_region`: offset and frequency estimates differ (value or variance). The unchanged
@@ -102,7 +103,7 @@ fn query(check_frequency_when_distinct: bool) {
 }
 
 #[kani::proof]
-#[kani::unwind(18)]
+#[kani::unwind(6)]
 fn c43_query() {
     query(false);
 }
@@ -110,7 +111,7 @@ fn c43_query() {
 /// Expected to FAIL (known-finding candidate): `KalmanController::clock_frequency` calls
 /// `filter.clock_offset`.
 #[kani::proof]
-#[kani::unwind(18)]
+#[kani::unwind(6)]
 fn c43_query_kf_frequency_is_offset() {
     query(true);
 }
@@ -126,9 +127,7 @@ fn finite(x: f64) -> bool {
 /// Two steered clocks (system clock = index 0 and one more), no links, zero time step.
 /// Pre-state: finite estimates, |offset| < 2^62 s, variances 1e-6 s^2; clock contract: finite current
 /// frequency, finite maximum >= 0.
-#[kani::proof]
-#[kani::unwind(18)]
-fn c43_steer() {
+fn steer<const N: usize>(two: bool) {
     let st: [f64; 4] = kani::any(); // off0 frq0 off1 frq1
     // concrete variances (standard deviation 1 ms): the steering code takes sqrt(variance), and a
     // symbolic square root per clock did not finish in 20 minutes
@@ -143,13 +142,17 @@ fn c43_steer() {
     kani::assume(st[0].abs() < 4.6e18 && st[2].abs() < 4.6e18);
     kani::assume(finite(cur[0]) && finite(cur[1]) && finite(max[0]) && finite(max[1]) && max[0] >= 0.0 && max[1] >= 0.0);
 
-    let (ctl, sys) = Ctl::new(RecClock(0), 1e-8, filter_config()).unwrap();
-    let second = ctl.add_clock(RecClock(1), 1e-8).unwrap();
+    let (ctl, sys) = CtlN::<N>::new(RecClock(0), 1e-8, filter_config()).unwrap();
+    let nrows = if two { 4 } else { 2 };
+    if two {
+        let second = ctl.add_clock(RecClock(1), 1e-8).unwrap();
+        ch::with_filter(&ctl, |f| assert!(eh::est_clock_row(fh::filter_estimator(f), second) == Some(2), "construction order"));
+    }
     ch::with_filter(&ctl, |f| {
         let e = fh::filter_estimator_mut(f);
-        assert!(eh::est_clock_row(e, sys) == Some(0) && eh::est_clock_row(e, second) == Some(2), "construction order");
+        assert!(eh::est_clock_row(e, sys) == Some(0), "construction order");
         let mut r = 0;
-        while r < 4 {
+        while r < nrows {
             eh::est_state_set(e, r, st[r]);
             eh::est_cov_set(e, r, r, var[r]);
             r += 1;
@@ -170,7 +173,7 @@ fn c43_steer() {
     ch::with_filter(&ctl, |f| {
         let e = fh::filter_estimator(f);
         let mut r = 0;
-        while r < 4 {
+        while r < nrows {
             after[r] = eh::est_state_get(e, r);
             r += 1;
         }
@@ -178,7 +181,7 @@ fn c43_steer() {
     });
 
     let mut c = 0;
-    while c < 2 {
+    while c < nrows / 2 {
         let (sets, steps, x, d) = unsafe { (SET_CALLS[c], STEP_CALLS[c], SET_VAL[c], STEP_VAL[c]) };
         assert!(sets + steps == 1, "each clock is either slewed or stepped, once");
         let (o, f) = (2 * c, 2 * c + 1);
@@ -205,5 +208,19 @@ fn c43_steer() {
     } else {
         assert!(t_after == 0, "filter time unchanged without a system clock step");
     }
-    kani::cover!(s0 == 1 && unsafe { SET_VAL[0] } == max[0] && max[0] > 0.0 && s1 == 0, "system clock slew clamped at +max, second clock stepped");
+    kani::cover!(s0 == 1 && unsafe { SET_VAL[0] } == max[0] && max[0] > 0.0 && (!two || s1 == 0), "system clock slew clamped at +max (second clock stepped)");
+}
+
+/// System clock only (2 state rows).
+#[kani::proof]
+#[kani::unwind(6)]
+fn c43_steer() {
+    steer::<4>(false);
+}
+
+/// System clock + a second steered clock (4 state rows).
+#[kani::proof]
+#[kani::unwind(18)]
+fn c43_steer_2() {
+    steer::<16>(true);
 }
